@@ -62,6 +62,14 @@ func cmdRace(seed uint64, n int) {
 				raceGo(&wg, r, func() { w.svc.ListActiveSwaps(); w.svc.GetSwap(c.id) })
 			case 1:
 				raceGo(&wg, r, func() { w.svc.ResendLastMessage(c.id) })
+				// what the RPC commands do with the swap SwapOut / SwapIn returned: wait for a state with a timeout
+				raceGo(&wg, r, func() {
+					if live, err := w.svc.GetActiveSwap(c.id); err == nil {
+						for q := 0; q < 50; q++ {
+							live.WaitForStateChange(func(swap.StateType) bool { return false }, time.Duration(q%4)*time.Microsecond)
+						}
+					}
+				})
 			case 2:
 				raceGo(&wg, r, func() {
 					if live, err := w.svc.GetActiveSwap(c.id); err == nil {
